@@ -52,13 +52,21 @@ def obligations_for(prop, ur):
     g = ur["g"]
     obs = []
     for fid, f in g.fns.items():
-        if prop not in f["props"]:
+        if prop not in f.get("all_props", f["props"]):
             continue
         if f["external_body"]:
             continue
         for c in f["clauses"]:
+            if prop not in c.get("props", f["props"]):
+                continue
             obs.append(dict(id="%s/%s" % (fid, c["id"]), fn=fid, clause=c["id"], text=c["text"],
                             src="%s:%d-%d" % (f["file"], f["src_lines"][0], f["src_lines"][1])))
+        if prop in f.get("inherits", []):
+            obs.append(dict(id="%s/ensures(trait-spec)" % fid, fn=fid, clause="trait-ensures",
+                            text="postcondition inherited from the trait declaration restated in the template (clause tagged %s)" % prop,
+                            src="%s:%d-%d" % (f["file"], f["src_lines"][0], f["src_lines"][1])))
+        if prop not in f["props"]:
+            continue
         obs.append(dict(id="%s/safety" % fid, fn=fid, clause="safety",
                         text="no arithmetic overflow, index in bounds, unwrap/expect on Some/Ok, unreachable!() dead, callee preconditions, termination",
                         src="%s:%d-%d" % (f["file"], f["src_lines"][0], f["src_lines"][1])))
@@ -116,6 +124,9 @@ def main(argv=None):
             continue
         first.setdefault(ur["unit"], ur)
         res = ur["res"]
+        if res["rc"] == 124:
+            infra.append("%s: verus timed out (wall clock); undecided" % ur["unit"])
+            continue
         if res["rc"] not in (0, 1) or not res.get("summary"):
             infra.append("%s: verus rc=%s %s" % (ur["unit"], res["rc"], res["raw_err_tail"][-600:]))
             continue
@@ -129,6 +140,10 @@ def main(argv=None):
                 continue
             if prop not in a["props"]:
                 other_failures.append(dict(obligation=oid, message=a["message"], props=a["props"]))
+                fdeps = ur["g"].fns.get(a.get("fn") or "", {}).get("deps", [])
+                if prop in fdeps and a["cls"] == "refuted":
+                    undecided.append(dict(obligation=oid, message="dependency of %s refuted (%s): %s is undecided by this check; "
+                                          "the owning property reports it" % (prop, a["message"], prop)))
                 continue
             if a["cls"] == "undecided":
                 undecided.append(dict(obligation=oid, message=a["message"]))
@@ -225,6 +240,8 @@ def write_evidence(prop, P, tier, seed, runs, first, obs, failures, violations, 
             ok = False
         if o["clause"] == "safety" and any(f.startswith(o["fn"] + "/") and f not in obs for f in failed_ids):
             ok = False
+        if o["clause"] == "trait-ensures" and any(f.startswith(o["fn"] + "/ensures(trait-spec") for f in failed_ids):
+            ok = False
         if o["clause"] == "lemma" and ("%s/%s" % (oid.split("/")[0], o["fn"])) in failed_ids:
             ok = False
         if infra or undecided:
@@ -247,7 +264,7 @@ def write_evidence(prop, P, tier, seed, runs, first, obs, failures, violations, 
         smt_ms += ur["res"].get("smt_ms") or 0
         cmds.append(ur["res"]["cmd"])
         for fid, f in g.fns.items():
-            if prop in f["props"]:
+            if prop in f.get("all_props", f["props"]):
                 fn_stats.append(dict(fn=fid, src="%s:%d-%d" % (f["file"], f["src_lines"][0], f["src_lines"][1]),
                                      clauses=len(f["clauses"]), assumed=f["external_body"]))
     trusted += P.get("trusted", [])
